@@ -155,8 +155,13 @@ func (r *Reconciler) Reconcile(ctx context.Context, req reconcile.Request) (reco
 
 	var latestRev, existingRev int64
 
-	if lr := v1.LatestRevision(comp, rl.Items); lr != nil {
-		latestRev = lr.Spec.Revision
+	// Consider all revisions labelled for this Composition, not only those it
+	// currently controls: revisions whose owner references were stripped (e.g.
+	// by a backup and restore) are re-adopted below and keep their numbers.
+	for i := range rl.Items {
+		if rl.Items[i].Spec.Revision > latestRev {
+			latestRev = rl.Items[i].Spec.Revision
+		}
 	}
 
 	for i := range rl.Items {
